@@ -1,5 +1,6 @@
 import DSymVerif.Driver.SymIO
 import DSymVerif.Model.Covers
+import DSymVerif.Model.CoversWired
 import DSymVerif.Spec.C05
 
 open DSymVerif DSymVerif.Proto DSymVerif.DS DSymVerif.Covers
@@ -67,6 +68,21 @@ def hypTables (s : RawSym) (gd : GroupData) : List (String × Bool) :=
         ("theorem-hypothesis-holds:every-edge-word-traces-through-the-table", allTracesDefined y t gd.e2w) ]
   | _ => [("theorem-hypothesis-holds:input-symbol-builds", false)]
 
+/-- search-node budget for the model of `coset_tables` (the Rust iterator has none) -/
+def nodeFuel : Nat := 50000000
+
+/-- the fully wired models (fundamental_group → coset_table(s) → cover_for_table) are run when
+    the tables the library produced are small enough; beyond, the model is `coverForTable` on the
+    transmitted tables (same observable, the table enumeration is then not re-done in Lean) -/
+def wiredOK (gd : GroupData) : Bool :=
+  gd.tables.length ≤ 400 && (gd.tables.foldl (fun a t => a + t.len) 0) ≤ 1500
+
+def encCovers (o : Outcome (List DSymData)) : String :=
+  match o with
+  | .ok cs => joinToks (toString cs.length :: cs.map encSym)
+  | .err => "MODEL-FUEL"
+  | .panic => "PANIC"
+
 def handler : Handler := fun op inp out =>
   let bad := ("-", fail "driver-cannot-parse-input")
   match op with
@@ -129,10 +145,8 @@ def handler : Handler := fun op inp out =>
       let g := specG s
       let model := match s.toSym with
         | .ok y =>
-          (match coversOfTables y gd.tables gd.e2w with
-           | .ok cs => joinToks (toString cs.length :: cs.map encSym)
-           | .err => "ERR"
-           | .panic => "PANIC")
+          if wiredOK gd then encCovers (Covers.covers y k nodeFuel)
+          else encCovers (coversOfTables y gd.tables gd.e2w)
         | _ => "PANIC"
       match run P.syms out with
       | some cs =>
@@ -158,11 +172,16 @@ def handler : Handler := fun op inp out =>
     -- the library returned more covers than the harness' cap: nothing is claimed for this case
     ("-", ok)
   | "subgroup" | "universal" =>
-    match run (do let s ← P.rawSym; let _subs ← P.intss; let gd ← P.groupData; pure (s, gd)) inp with
-    | some (s, gd) =>
+    match run (do let s ← P.rawSym; let subs ← P.intss; let gd ← P.groupData; pure (s, subs, gd)) inp with
+    | some (s, subs, gd) =>
       let g := specG s
       let model := match s.toSym, gd.tables with
-        | .ok y, [t] => encOut (coverForTable y t gd.e2w)
+        | .ok y, [t] =>
+          if wiredOK gd then
+            (match Covers.subgroupCover y (subs.map FW.new) with
+             | .err => "MODEL-FUEL"
+             | o => encOut o)
+          else encOut (coverForTable y t gd.e2w)
         | _, _ => "-"
       match run P.rawSym out with
       | some c =>
